@@ -527,6 +527,12 @@ def gen_sensors(r, ncases, **kw):
         good = r.range(0, 4)
         ops += ["#case sn monitor", f"sn.monitor win={r.pick([1, 2, 10])} avg={fx(float(r.range(20000, 90000)))} "
                 f"val={fx(float(r.range(20000, 90000)))} good={good} polls={polls} rate_us={r.pick([200, 500])}"]
+    # start-up: the real initializeSensors seeds the moving average from the first read (also a failing / non-finite one)
+    ops.append("#case sn init")
+    for out, pv in CMD_OUTPUTS:
+        code = 0 if r.chance(0.85) else r.pick([1, 3])
+        ptok = "err" if pv is None else "ok:" + fx(pv)
+        ops.append(f"sn.init out={base64.b64encode(out.encode()).decode() or '='} exit={code} pv={ptok}")
     for _ in range(ncases):
         ops += gen_sensor_case(r, **kw)
     return ops
